@@ -559,14 +559,19 @@ func runCase(c *Case, next func(st *genState, h *history) *Msg) (out outcome) {
 func TestProp(t *testing.T) {
 	rapid.Check(t, func(t *rapid.T) {
 		var c Case
-		variants := make([]string, 0, 40)
-		for i := 0; i < 31; i++ {
-			variants = append(variants, "model")
+		// about 1 case in 50 is a loop case (0.3-1 s of state-machine ticks each); it sits
+		// in the middle of the list because the library favours the ends of a range
+		variants := make([]string, 0, 60)
+		for i := 0; i < 59; i++ {
+			switch {
+			case i == 29:
+				variants = append(variants, "loop")
+			case i%5 == 4:
+				variants = append(variants, "engine")
+			default:
+				variants = append(variants, "model")
+			}
 		}
-		for i := 0; i < 8; i++ {
-			variants = append(variants, "engine")
-		}
-		variants = append(variants, "loop") // 2.5 %: a loop case costs 0.3-1 s of state-machine ticks
 		c.Variant = rapid.SampledFrom(variants).Draw(t, "variant")
 		c.Prog = genProgram(t, c.Variant)
 		c.Prim = PrimCfg{Codec: rapid.SampledFrom([]int{0, 0, 1, 1, 2}).Draw(t, "pcodec"), RespectTx: rapid.Bool().Draw(t, "respecttx")}
